@@ -59,3 +59,52 @@ pub fn check_uncompressed<S: Src, const N: usize>(s: &mut S) -> Verdict {
     vassert!(steps <= N + 1, "check_uncompressed_name: steps bounded by the buffer length");
     Ok(())
 }
+
+fn vec_is(v: &[u8], want: &[u8], n: usize) -> bool {
+    if v.len() != n {
+        return false;
+    }
+    let mut i = 0;
+    let mut same = true;
+    while i < n {
+        same &= v[i] == want[i];
+        i += 1;
+    }
+    same
+}
+
+/// C03 (leaf): the trusted name readers on every name the validator accepts
+/// in buffers of up to N bytes: they rely on exactly what it checks.
+pub fn readers<S: Src, const N: usize>(s: &mut S) -> Verdict {
+    let buf: [u8; N] = sym_bytes::<S, N>(s);
+    let len = s.usize();
+    vassume!(len <= N);
+    let off = s.usize();
+    vassume!(off < len);
+    let p = &buf[..len];
+    cut_errors(1);
+    let end = match Compress::check_compressed_name(p, off) {
+        Ok(e) => e,
+        Err(_) => return Ok(()),
+    };
+    cut_errors(0);
+    // skip_name needs two more bytes after a name (a record header follows in a real packet)
+    if end + 2 <= len {
+        vassert!(RRIterator::skip_name(p, off) == end, "RRIterator::skip_name: the end of the name as written");
+    }
+    let mut w = [0u8; 256];
+    let wl = spec::name_wire(p, off, &mut w);
+    let mut out = Vec::new();
+    let r = Compress::copy_uncompressed_name(&mut out, p, off);
+    vassert!(r.name_len == wl && r.final_offset == end, "copy_uncompressed_name: length and end of the name");
+    vassert!(vec_is(&out, &w, wl), "copy_uncompressed_name: the expanded name");
+    vassert!(Compress::raw_name_len_after_decompression(p, off) == wl, "raw_name_len_after_decompression");
+    vassert!(Compress::raw_name_len(&p[off..]) == end - off, "raw_name_len: length of the name as written");
+    let mut t = [0u8; 1024];
+    let tl = spec::name_text(p, off, &mut t, false);
+    let txt = Compress::raw_name_to_str(p, off);
+    vassert!(vec_is(&txt, &t, tl), "raw_name_to_str: dotted text of the expanded name");
+    vcover!(s, p[off] >= 0xc0, "name starting with a pointer");
+    vcover!(s, wl > 3, "name of more than one label");
+    Ok(())
+}
